@@ -56,7 +56,7 @@ PANEL_TRANSFORMERS = {
     "MiniRocket": {"num_features": [84]},
     "PCATransformer": {"n_components": [2, 3]},
     "MiniRocketMultivariate": {"num_features": [84]},
-    "IntervalSegmenter": {"intervals": [2, 3]},
+    "IntervalSegmenter": {"intervals": [2, 3, "@rows", "@rows"]},
     "FeatureUnion": {}, "SeriesToSeriesRowTransformer": {}, "SeriesToPrimitivesRowTransformer": {},
     "FittedParamExtractor": {},
 }
@@ -350,6 +350,9 @@ def build_named(name, params, n_jobs, random_state, shared=False):
     import inspect
     cls = _find_class(name)
     kw = {k: v for k, v in params.items() if not k.startswith("_") and v != "default"}
+    if name == "IntervalSegmenter" and kw.get("intervals") == "@rows":
+        # the intervals written out: one (start, end) row each
+        kw["intervals"] = np.array([[0, 4], [2, 7], [5, 9]])
     sig = inspect.signature(cls.__init__).parameters
     if "n_jobs" in sig:
         kw["n_jobs"] = n_jobs
@@ -617,8 +620,15 @@ def execute(prop, scen):
                     digest.update(("interloper:%s" % type(e).__name__).encode())
             continue
         if c.get("pickle_before"):
-            with peers.paused():
-                est = pickle.loads(pickle.dumps(est))
+            try:
+                with peers.paused():
+                    est = pickle.loads(pickle.dumps(est))
+            except Exception as e:  # noqa
+                # it could be pickled right after fit: an apply-type call changed the estimator
+                v("not_picklable_after_calls", "the fitted estimator could be pickled after fit but not "
+                  "after %d apply-type call(s): %s: %s" % (i, type(e).__name__, str(e)[:120]),
+                  exc=type(e).__name__)
+                break
             res.fault("pickle_roundtrip")
             res.probe("pickle_midway")
         a = call_args(c)
